@@ -518,6 +518,12 @@ class MockIncludeDirective:
                 2, f'Directive "{self.name}": circular inclusion: {chain}'
             )
 
+        # the settings of an enclosing include are restored afterwards
+        outer_relative = {
+            key: self.renderer.md_env[key]
+            for key in ("relative-images", "relative-docs")
+            if key in self.renderer.md_env
+        }
         try:
             include_log.append(include_key)
             self.renderer.document["source"] = str(path)
@@ -544,6 +550,7 @@ class MockIncludeDirective:
             self.renderer.reporter.source = rsource
             self.renderer.md_env.pop("relative-images", None)
             self.renderer.md_env.pop("relative-docs", None)
+            self.renderer.md_env.update(outer_relative)
             if line_func is not None:
                 self.renderer.reporter.get_source_and_line = line_func
             else:
